@@ -24,6 +24,9 @@ type mapInfo struct {
 func (x *Exec) mapInfo(t types.Type) *mapInfo {
 	mt := under(t).(*types.Map)
 	ks := leafSorts(mt.Key())
+	if isString(mt.Key()) {
+		ks = []string{sInt} // keyed by content code
+	}
 	if len(ks) != 1 {
 		panic(fmt.Sprintf("map key type %v is not a single SMT value", mt.Key()))
 	}
@@ -33,6 +36,14 @@ func (x *Exec) mapInfo(t types.Type) *mapInfo {
 func (mi *mapInfo) hasSort() string  { return arrSort("(Array " + mi.ksort + " Bool)") }
 func (mi *mapInfo) valSort(j int) string {
 	return arrSort("(Array " + mi.ksort + " " + mi.vsorts[j] + ")")
+}
+
+// mapKey: SMT key term for a Go key value (strings are keyed by content code).
+func (x *Exec) mapKey(st *State, mt types.Type, k *Val) string {
+	if isString(k.Ty) {
+		return x.strID(k)
+	}
+	return k.L[0]
 }
 
 func (x *Exec) mapCard(st *State, m *Val) string {
@@ -49,12 +60,13 @@ func (x *Exec) mapHas(st *State, m *Val, k string) string {
 
 func (x *Exec) mapLookup(st *State, m *Val, k *Val) (*Val, string) {
 	mi := x.mapInfo(m.Ty)
-	has := tAnd(tNot(tEq(m.L[0], "0")), x.mapHas(st, m, k.L[0]))
+	kk := x.mapKey(st, m.Ty, k)
+	has := tAnd(tNot(tEq(m.L[0], "0")), x.mapHas(st, m, kk))
 	out := &Val{Ty: mi.vt, L: make([]string, len(mi.vsorts))}
 	z := zeroVal(mi.vt)
 	for j := range mi.vsorts {
 		hn := fmt.Sprintf("%s_val_%s", mi.key, mi.vnames[j])
-		v := tSel(tSel(x.heap(st, hn, mi.valSort(j)), m.L[0]), k.L[0])
+		v := tSel(tSel(x.heap(st, hn, mi.valSort(j)), m.L[0]), kk)
 		out.L[j] = tIte(has, v, z.L[j])
 	}
 	x.typeFacts(out)
@@ -85,27 +97,29 @@ func (fr *Frame) execMapUpdate(st *State, in *ssa.MapUpdate) {
 	if isIface(mi.vt) && !isIface(v.Ty) {
 		v = x.makeIface(st, v, mi.vt)
 	}
-	had := x.mapHas(st, m, k.L[0])
+	kk := x.mapKey(st, m.Ty, k)
+	had := x.mapHas(st, m, kk)
 	hn := mi.key + "_has"
 	h := x.heap(st, hn, mi.hasSort())
-	st.heaps[hn] = x.vc.def(hn, mi.hasSort(), tSto(h, m.L[0], tSto(tSel(h, m.L[0]), k.L[0], "true")))
+	st.heaps[hn] = x.vc.def(hn, mi.hasSort(), tSto(h, m.L[0], tSto(tSel(h, m.L[0]), kk, "true")))
 	cn := mi.key + "_card"
 	ch := x.heap(st, cn, arrSort(sInt))
 	st.heaps[cn] = x.vc.def(cn, arrSort(sInt), tSto(ch, m.L[0], tIte(had, tSel(ch, m.L[0]), tAdd(tSel(ch, m.L[0]), "1"))))
 	for j := range mi.vsorts {
 		vn := fmt.Sprintf("%s_val_%s", mi.key, mi.vnames[j])
 		vh := x.heap(st, vn, mi.valSort(j))
-		st.heaps[vn] = x.vc.def(vn, mi.valSort(j), tSto(vh, m.L[0], tSto(tSel(vh, m.L[0]), k.L[0], v.L[j])))
+		st.heaps[vn] = x.vc.def(vn, mi.valSort(j), tSto(vh, m.L[0], tSto(tSel(vh, m.L[0]), kk, v.L[j])))
 	}
 }
 
 func (fr *Frame) mapDelete(st *State, m, k *Val) {
 	x := fr.x
 	mi := x.mapInfo(m.Ty)
-	had := tAnd(tNot(tEq(m.L[0], "0")), x.mapHas(st, m, k.L[0]))
+	kk := x.mapKey(st, m.Ty, k)
+	had := tAnd(tNot(tEq(m.L[0], "0")), x.mapHas(st, m, kk))
 	hn := mi.key + "_has"
 	h := x.heap(st, hn, mi.hasSort())
-	st.heaps[hn] = x.vc.def(hn, mi.hasSort(), tSto(h, m.L[0], tSto(tSel(h, m.L[0]), k.L[0], "false")))
+	st.heaps[hn] = x.vc.def(hn, mi.hasSort(), tSto(h, m.L[0], tSto(tSel(h, m.L[0]), kk, "false")))
 	cn := mi.key + "_card"
 	ch := x.heap(st, cn, arrSort(sInt))
 	st.heaps[cn] = x.vc.def(cn, arrSort(sInt), tSto(ch, m.L[0], tIte(had, tSub(tSel(ch, m.L[0]), "1"), tSel(ch, m.L[0]))))
@@ -147,34 +161,40 @@ type mapIter struct {
 func (x *Exec) rangeMapInit(st *State, c *Cell, over *Val) {
 	mi := x.mapInfo(over.Ty)
 	vs := "((as const (Array " + mi.ksort + " Bool)) false)"
-	c.ty = types.NewTuple(types.NewVar(0, nil, "n", types.Typ[types.Int]))
 	st.cells[c] = &Val{Ty: types.Typ[types.Int], L: []string{"0"}, X: &mapIter{visited: vs, m: over}}
+}
+
+// havocMapIter: at a loop header the set of visited keys is unknown, but it is
+// a subset of the map's keys.
+func (x *Exec) havocMapIter(st *State, it *mapIter) *mapIter {
+	mi := x.mapInfo(it.m.Ty)
+	vs := x.vc.fresh("visited", "(Array "+mi.ksort+" Bool)")
+	x.vc.nfresh++
+	q := fmt.Sprintf("q!%d", x.vc.nfresh)
+	x.vc.assume("(forall ((" + q + " " + mi.ksort + ")) (=> (select " + vs + " " + q + ") " + tAnd(tNot(tEq(it.m.L[0], "0")), x.mapHas(st, it.m, q)) + "))")
+	return &mapIter{visited: vs, m: it.m}
 }
 
 func (x *Exec) rangeMapNext(st *State, c *Cell, over *Val, tup *types.Tuple) *Val {
 	mi := x.mapInfo(over.Ty)
 	cur := st.cells[c]
 	it, _ := cur.X.(*mapIter)
-	visited := ""
-	if it != nil {
-		visited = it.visited
+	if it == nil {
+		it = x.havocMapIter(st, &mapIter{m: over})
 	}
-	if visited == "" || cur.L[0] != "0" && it == nil {
-		visited = x.vc.fresh("visited", "(Array "+mi.ksort+" Bool)")
-	}
-	if _, isLit := isNumLit(cur.L[0]); !isLit {
-		// after a loop havoc the visited set is unknown too
-		visited = x.vc.fresh("visited", "(Array "+mi.ksort+" Bool)")
-	}
-	cnt := cur.L[0]
-	card := x.mapCard(st, over)
+	visited := it.visited
 	nonnil := tNot(tEq(over.L[0], "0"))
-	ok := tAnd(nonnil, tCmp("<", cnt, card))
+	ok := x.vc.fresh("mapnext", sBool)
 	k := x.freshVal("mapkey", mi.kt)
-	x.vc.assume(tImp(ok, tAnd(x.mapHas(st, over, k.L[0]), tNot(tSel(visited, k.L[0])))))
+	kk := x.mapKey(st, over.Ty, k)
+	x.vc.assume(tImp(ok, tAnd(nonnil, x.mapHas(st, over, kk), tNot(tSel(visited, kk)))))
+	x.vc.nfresh++
+	q := fmt.Sprintf("q!%d", x.vc.nfresh)
+	// the loop ends only when every key has been visited
+	x.vc.assume(tImp(tNot(ok), "(forall (("+q+" "+mi.ksort+")) (=> "+tAnd(nonnil, x.mapHas(st, over, q))+" (select "+visited+" "+q+")))"))
 	v, _ := x.mapLookup(st, over, k)
-	nv := x.vc.def("visited", "(Array "+mi.ksort+" Bool)", tIte(ok, tSto(visited, k.L[0], "true"), visited))
-	st.cells[c] = &Val{Ty: types.Typ[types.Int], L: []string{x.vc.def("iter", sInt, tIte(ok, tAdd(cnt, "1"), cnt))}, X: &mapIter{visited: nv, m: over}}
+	nv := x.vc.def("visited", "(Array "+mi.ksort+" Bool)", tIte(ok, tSto(visited, kk, "true"), visited))
+	st.cells[c] = &Val{Ty: types.Typ[types.Int], L: []string{"0"}, X: &mapIter{visited: nv, m: over}}
 	out := &Val{Ty: tup, L: []string{ok}}
 	out.L = append(out.L, k.L...)
 	out.L = append(out.L, v.L...)
